@@ -3,6 +3,7 @@ package google
 import (
 	"archive/zip"
 	"bytes"
+	"encoding/base64"
 	"encoding/binary"
 	"encoding/hex"
 	"encoding/json"
@@ -71,7 +72,7 @@ func (p *defaultProvider) FetchAndParse() (*CRLSet, error) {
 func (crlSet *CRLSet) Check(cert *x509.Certificate, issuerSPKIHash string) *Entry {
 	// check for BlockedSPKIs first
 	for _, spki := range crlSet.BlockedSPKIs {
-		if issuerSPKIHash == spki {
+		if issuerSPKIHash == spki || issuerSPKIHash == blockedSPKIHex(spki) {
 			return &Entry{
 				SerialNumber: cert.SerialNumber,
 			}
@@ -88,6 +89,16 @@ func (crlSet *CRLSet) Check(cert *x509.Certificate, issuerSPKIHash string) *Entr
 		} // cert not found if for loop completes
 	}
 	return nil
+}
+
+// blockedSPKIHex renders a BlockedSPKIs header entry (base64 of the SHA-256 of
+// the SPKI) in the hex form used for IssuerLists keys.
+func blockedSPKIHex(spki string) string {
+	raw, err := base64.StdEncoding.DecodeString(spki)
+	if err != nil || len(raw) != 32 {
+		return spki
+	}
+	return hex.EncodeToString(raw)
 }
 
 // Implementation details below - includes home-baked parsing of Google Update data,
